@@ -36,6 +36,7 @@ def check(m, run):
     run.floor('KR1.refined-knot-vector-is-the-sorted-merge', 2, 'rows and slabs')
     run.assume('order-type abstraction: distinct knots differ by more than the tolerance of knot_refinement (1e-7) and of find_multiplicity')
     from .. import skel_drivers as _sdk
+    _sdk.ec2(m, run)       # curves / surfaces extracted from a shape are refined on their own: they share no list with each other or with the source
     _sdk.kd5(m, run)       # the per-row helpers dispatch on isinstance(point[0], float): the setters store floats
 
 
